@@ -86,3 +86,7 @@ def run(chk):
     run_kernels(chk, items)
     L1m.settle(chk, [o for o in chk.obs if o.name.startswith("Point.Equal[")], lambda: equal_battery(chk.seed), "Point.Equal")
     chk.samples = [o.j() for o in chk.obs if o.name.startswith("Point.Equal[")][:5]
+
+
+def safety_net(chk):
+    return equal_battery(chk.seed)
